@@ -1984,12 +1984,23 @@ def proximal_huber(space, gamma):
             else:
                 norm = x.ufuncs.absolute()
 
-            mask = norm.ufuncs.less_equal(gamma + self.sigma)
-            out[mask] = gamma / (gamma + self.sigma) * x[mask]
-
-            mask.ufuncs.logical_not(out=mask)
-            sign_x = x.ufuncs.sign()
-            out[mask] = x[mask] - self.sigma * sign_x[mask]
+            # Pointwise factor: gamma / (gamma + sigma) where
+            # |x| <= gamma + sigma, and 1 - sigma / |x| elsewhere (for vector
+            # fields, |x| is the pointwise 2-norm). It is computed on plain
+            # arrays since boolean-mask indexing of elements does not work
+            # for product spaces and array-weighted spaces.
+            norm_arr = norm.asarray()
+            thresh = gamma + self.sigma
+            with np.errstate(divide='ignore', invalid='ignore'):
+                factor = np.where(norm_arr <= thresh, gamma / thresh,
+                                  1 - self.sigma / norm_arr)
+            if isinstance(self.domain, ProductSpace):
+                factor = self.domain[0].element(factor)
+                for out_i, x_i in zip(out, x):
+                    x_i.multiply(factor, out=out_i)
+            else:
+                factor = self.domain.element(factor)
+                x.multiply(factor, out=out)
 
             return out
 
